@@ -247,7 +247,7 @@ CLAIMS.update({
         'EXPLORED, not proved: that no undocumented exception type escapes the ~3000 lines of record parsers -- ~60 (thorough 220) structured corruptions of each of 24 (200) base images (truncations at every '
         'structure boundary, field mutations in every structure kind, consistent both-endian extent/length rewrites incl. self/parent/beyond-EOF, El Torito and boot-info fields, path tables, UDF tags) opened in '
         'subprocesses under a 6 s alarm and a 1.5 GiB address-space limit.'),
-  note='level "other": proof for the loop skeleton, structured exploration for the record parsers; open()/open_fp() convert builtin exception types into PyCdlibInvalidISO at one place (fix 92e3564).',
+  note='level "other": proofs for the directory walk, structured exploration for the rest.  Added: Model/Parse.v is a FAITHFUL model of _walk_directories (plain ISO9660 records; Rock Ridge / XA / multi-extent records leave the fragment) and for EVERY byte string and root pointer C15_directory_walk_terminates_on_any_bytes (fuel linear in the file length), C15_directory_walk_work_is_linear_in_the_file (33 * records <= length + 2048, same for Inodes), C15_walk_fails_only_at_documented_raise_points (nine raise points, each PyCdlibInvalidISO / PyCdlibInvalidInput after the conversion in _open_fp_checked); the walk before fix 863c802 is refuted (directories inside one another walked once per claiming directory: 0.9 MB image, 54 s, 3.2 million objects -- reproduced, repaired); tied by parsehostileleaf.py (damaged directory areas: the library\'s outcome -- graph or raise point -- vs the model).  Known finding: work quadratic in the records of ONE unsorted directory (deterministic line-count probe).  The UDF / El Torito / Rock Ridge parsers, memory use and the ~3000 lines of record parsers are explored, not proved.  open()/open_fp() convert builtin exception types into PyCdlibInvalidISO at one place (fix 92e3564).',
   technique='Coq termination/bound proofs for the directory-walk skeleton + structured corruption run under time and memory limits',
   design='§8.15'),
  'C17': dict(category='proof',
